@@ -250,6 +250,20 @@ CHECKS = {
         "configured terminator is not quoted).",
         "DESIGN.md 4/C20",
     ),
+    "C16": (
+        "exploration",
+        "differential testing of generated rdump invocations against a reference pipeline (prefix -> predicate -> "
+        "slice -> overrides -> projection -> expansion), in-process and as a subprocess, with injected bad sources",
+        "Generated option combinations (skip, count, selector with compiled and interpreted engine, -F, -X, metadata "
+        "overrides, --multi-timestamp, --split, seven output targets and six stdout modes) run over 1-4 input files "
+        "of three record types with missing, truncated, garbage and empty sources placed among the good ones. Stream "
+        "and JSON outputs are read back and compared by deep observation with the reference pipeline's records; CSV, "
+        "line and text outputs and captured stdout are compared byte for byte with the same records rendered through "
+        "the same writer.",
+        "Expected records are rendered with the repository's own writers (their fidelity is C14/C20); csv/line split "
+        "parts are not compared (per-part headers).",
+        "DESIGN.md 4/C16",
+    ),
 }
 
 NOT_APPLICABLE = {}
